@@ -6,12 +6,11 @@ def format_number(n, n_type):
     'Convert the given number to a string, the way QB used to do.'
     if n_type == CellType.SINGLE:
         n = ctypes.c_float(n).value
-        sn = str(n)
-        if '.' in sn and 'e' not in sn:
-            digits = len(sn) - 1
-            before_decimal = sn.index('.')
-            desired_total_digits = 7
-            n = round(n, ndigits=desired_total_digits-before_decimal)
+        # a SINGLE is shown with at most 7 significant digits, in
+        # plain as well as in exponent form, whatever its sign
+        n = float('%.7g' % n)
+    if n == 0:
+        n = abs(n)  # no "-0"
     s = str(n)
     if s.endswith('.0'):
         s = s[:-2]
